@@ -38,20 +38,26 @@ def objectives_of(script):
 
 
 # ---------------------------------------------------------------------------------- C07
+def f42_region(script):
+    """finding F42: with a ConcurrentBuffer the assertions are quantified and z3.Optimize ("optimization with quantified
+    constraints is not supported") may return a non-optimal model; the built-in optimiser is not compared there"""
+    return any(d["op"] == "buffer" and d.get("concurrent", False) for d in script) and \
+        any(d["op"] == "constraint" and d["c"][0] in ("loadBuffer", "unloadBuffer") for d in script)
+
+
 def run_c07(script, rng, summary):
-    if not objectives_of(script):
-        count(summary, "run_skipped_no_objective")
-        return None
     real = pslib.Real()
     res = real.run(script)
+    if not objectives_of(script) or len(real.problem.objectives) == 0:
+        # no objective of its own: the weighted-sum probe declares its own objectives
+        count(summary, "run_c07_no_objective_weighted_probe_only")
+        return weighted_probe(script, real, rng, summary)
     nobj = len(real.problem.objectives)
-    if nobj == 0:
-        return None
     cfg_inc = {"optimizer": "incremental"}
     cfg_opt = {"optimizer": "optimize", "optimize_priority": "weight" if nobj > 1 else rng.choice(["pareto", "lex", "box"])}
     if smrun.objective_setup(real, cfg_inc, script) is None:
-        count(summary, "run_skipped_mixed_directions")
-        return None
+        count(summary, "run_c07_mixed_directions_weighted_probe_only")
+        return weighted_probe(script, real, rng, summary)
     t0 = time.time()
     a = smrun.run_real_solve(script, cfg_inc)
     dt = time.time() - t0
@@ -66,15 +72,20 @@ def run_c07(script, rng, summary):
     if a.get("result") and dt < 3 and a.get("better_status") == "sat":
         return {"what": f"incremental optimiser returned value {a.get('value')} but a valid schedule with value "
                         f"{a.get('better_value')} exists", "runs": [a, b]}
-    if b.get("result") and b.get("better_status") == "sat":
+    if f42_region(script):
+        count(summary, "run_c07_builtin_not_compared_known_F42_region")
+    if b.get("result") and b.get("better_status") == "sat" and not f42_region(script):
         return {"what": f"builtin optimiser returned value {b.get('value')} but a valid schedule with value "
                         f"{b.get('better_value')} exists", "runs": [a, b]}
-    if a.get("result") and b.get("result") and dt < 3 and a.get("value") is not None and b.get("value") is not None \
+    if a.get("result") and b.get("result") and dt < 3 and not f42_region(script) and a.get("value") is not None and b.get("value") is not None \
             and a["value"] != b["value"] and a.get("better_status") == "unsat" == b.get("better_status"):
         return {"what": f"the two optimisers disagree: {a['value']} vs {b['value']}", "runs": [a, b]}
     if a.get("result") is False and a.get("base_status") == "sat":
         return {"what": "incremental optimiser reports no solution on a satisfiable problem", "runs": [a]}
     v = worst_first_probe(script, real, rng, summary, "run_c07")
+    if v:
+        return v
+    v = weighted_probe(script, real, rng, summary)
     if v:
         return v
     # early stops: still valid, and no better than the optimum
@@ -107,6 +118,61 @@ def worst_first_probe(script, real, rng, summary, tag):
                             f"admissible model each time; {how})", "script": scr, "oracle_answers": adv.get("answers")}
         if adv.get("result"):
             count(summary, f"{tag}_worst_first_iterations_{min(len(adv.get('answers', [])), 12)}")
+    return None
+
+
+def weighted_probe(script, real, rng, summary):
+    """two objectives of one direction with weights that are not multiples of one another (2:3, 5:7, 3:4:5 ...): the
+    weighted sum takes values that are not multiples of any weight, so an optimiser that steps by more than 1 jumps over
+    the optimum; both optimisers, then a fresh z3 is asked for a strictly better valid schedule"""
+    tasks = [d for d in script if d["op"] == "task" and not d.get("optional")]
+    base = [d for d in script if d["op"] != "objective"]
+    ws = rng.choice([(2, 3), (3, 2), (5, 7), (3, 5), (4, 6), (3, 4, 5), (2, 5)])
+    if len(tasks) < 2 or real.problem.horizon is None or rng.random() < 0.5:
+        # a loose problem of its own (the generated one often leaves the weighted sum only a handful of values): 2-3
+        # fixed-duration tasks sharing one worker on a generous horizon
+        tasks = [{"op": "task", "name": f"L{i}", "kind": ("fixed", rng.randint(1, 4))} for i in range(len(ws))]
+        base = [{"op": "problem", "name": "loose", "horizon": rng.randint(10, 16)}] + tasks + [{"op": "worker", "name": "LW"}] + \
+               [{"op": "require", "task": t["name"], "res": ("worker", "LW")} for t in tasks]
+        count(summary, "run_c07_weighted_sum_loose_problem")
+    ni = sum(1 for d in base if d["op"] == "indicator")
+    picked = rng.sample(tasks, min(len(ws), len(tasks)))
+    kind = rng.choice(["minimizeIndicator", "maximizeIndicator"])
+    scr = list(base)
+    for k, t in enumerate(picked):
+        scr.append({"op": "indicator", "i": ("expr", f"wsum{k}", ("+", (rng.choice(["tstart", "tend"]), t["name"]), k), None)})
+    for k, _ in enumerate(picked):
+        scr.append({"op": "objective", "o": (kind, ni + k, ws[k])})
+    probe = pslib.Real()
+    if any(r != "ok" for r in probe.run(scr)):
+        return None
+    t0 = time.time()
+    a = smrun.run_real_solve(scr, {"optimizer": "incremental"})
+    dt = time.time() - t0
+    b = smrun.run_real_solve(scr, {"optimizer": "optimize", "optimize_priority": "weight"})
+    count(summary, "run_c07_weighted_sum")
+    for r, nm in ((a, "incremental"), (b, "optimize/weight")):
+        if r.get("raised"):
+            return {"what": f"{nm} optimiser raised {r['raised']} (weighted sum {ws})", "script": scr}
+        if r.get("violated_assertions"):
+            return {"what": f"{nm} optimiser returned an invalid schedule (weighted sum {ws})", "script": scr}
+    if a.get("result") and dt < 3 and a.get("better_status") == "sat":
+        return {"what": f"weighted sum {ws}: incremental optimiser returned value {a.get('value')} but a valid schedule "
+                        f"with value {a.get('better_value')} exists", "script": scr, "runs": [a, b]}
+    if b.get("result") and b.get("better_status") == "sat" and not f42_region(scr):
+        return {"what": f"weighted sum {ws}: builtin optimiser returned value {b.get('value')} but a valid schedule with "
+                        f"value {b.get('better_value')} exists", "script": scr, "runs": [a, b]}
+    # z3 is free to answer with any admissible model: the same problem against the worst-first consistent oracle, which
+    # walks down the values of the weighted sum one admissible step at a time
+    adv = smrun.adversarial_incremental_solve(scr)
+    if adv is not None:
+        count(summary, "run_c07_weighted_sum_worst_first")
+        if adv.get("raised"):
+            return {"what": f"incremental optimiser raised {adv['raised']} (weighted sum {ws}, worst-first oracle)", "script": scr}
+        if adv.get("result") and adv.get("better_status") == "sat":
+            return {"what": f"weighted sum {ws}: incremental optimiser stopped at value {adv['value']} although a valid "
+                            f"schedule with value {adv['better_value']} exists (z3 answering with the worst admissible "
+                            f"model each time)", "script": scr, "oracle_answers": adv.get("answers")}
     return None
 
 
@@ -241,6 +307,9 @@ def run_c13(script, rng, summary):
         # pareto excluded by the property; with several objectives z3.Optimize's box mode also answers
         # `unsat` on every third check() of an unchanged problem (z3 behaviour, outside the repository)
         cfg["optimize_priority"] = rng.choice(["lex", "weight"] + (["box"] if nobj <= 1 else []))
+    elif rng.random() < 0.4:
+        # early stops of the incremental loop (every small iteration budget takes another exit of the loop)
+        cfg["max_iter"] = rng.choice([1, 1, 2, 3])
     multi_equiv = nobj > 1 and (cfg["optimizer"] == "incremental" or cfg.get("optimize_priority") == "weight")
     pool = ["solve", "solve", "solve", "findAnother", "findAnother", "export"] + ([] if multi_equiv else ["initialize"])
     ops = [rng.choice(pool) for _ in range(rng.randint(2, 5))]
@@ -337,6 +406,9 @@ def run_c15(script, rng, summary):
     real0, base = smrun.fresh_assertions(script)
     nobj = len(real0.problem.objectives)
     cands = [c for c in CONFIGS if ("logics" not in c or in_lia_fragment(script))]
+    if nobj >= 1 and f42_region(script):
+        cands = [c for c in cands if c.get("optimizer", "incremental") == "incremental"]
+        count(summary, "run_c15_builtin_not_compared_known_F42_region")
     if nobj > 1:
         # several objectives: only the weighted-sum readings are comparable
         cands = [c for c in cands if c.get("optimizer", "incremental") == "incremental" or c.get("optimize_priority") == "weight"]
